@@ -181,6 +181,9 @@ DEVS = {
     'blank_after': dict(post='\n\n'),
     'comment_after': dict(post='\n# after'),
     'formfeedless_ws_line': dict(pre='   \n'),
+    # characters that str.splitlines treats as line ends but the config language does not: a comment runs to '\n'
+    'trailing_comment_odd_separators': dict(post='  # a\x0cq9.z = 99 \x85 b \u2028 c \x1d d'),
+    'comment_before_odd_separators': dict(pre='# page\x0b q9.z = 9 \x1c x \u2029 y \x1e\n'),
 }
 BLOCKS = {
     'i2': dict(ind='  '),
